@@ -11,3 +11,7 @@ import RdfModel.Props.C20Time
 #print axioms RdfModel.C20Time.dev_year_range
 #print axioms RdfModel.C20Time.dev_end_of_day
 #print axioms RdfModel.C20Time.time_termEquals
+#print axioms RdfModel.C20Time.time_format_parse
+#print axioms RdfModel.C20Time.time_canonical_partial
+#print axioms RdfModel.C20Time.dev_signed_unstable
+#print axioms RdfModel.C20Time.time_complete_partial
